@@ -25,6 +25,23 @@ from allmydata.unknown import UnknownNode
 from allmydata.monitor import Monitor
 
 NAMES = ["a", "b", "c", "é", "é", "Å", "Å", "x y", "日本", "z" * 40, "ẛ̣", "ẛ̣̇"]
+_BASES = ["a", "e", "o", "A", "E", "u", "s", "\u017f", "n", "c", "i", "\u1100", "\u0041", "\u00e9", "\u00c5", "\u1e9b"]
+_MARKS = ["\u0300", "\u0300", "\u0301", "\u0302", "\u0303", "\u0304", "\u0307", "\u0308", "\u030a", "\u0323", "\u0327", "\u031b", "\u1161", "\u11a8"]
+
+
+def draw_name(ch, cat, label):
+    """A child name: one of a few fixed ones (so that operations collide on names) or a drawn composition of base letters and
+    combining marks (every mark the NFC quick-check treats specially: U+0300 itself, marks that reorder, Hangul jamo), in
+    composed or decomposed spelling."""
+    if ch.chance(cat, ("name-fixed",) + tuple(label), 0.6):
+        return ch.pick(cat, ("name",) + tuple(label), NAMES)
+    out = ""
+    for u in range(ch.randint(cat, ("name-units",) + tuple(label), 1, 3)):
+        out += ch.pick(cat, ("name-base", u) + tuple(label), _BASES)
+        for m in range(ch.pick(cat, ("name-nmarks", u) + tuple(label), [0, 1, 1, 2])):
+            out += ch.pick(cat, ("name-mark", u, m) + tuple(label), _MARKS)
+    form = ch.pick(cat, ("name-form",) + tuple(label), ["asis", "asis", "NFD", "NFC"])
+    return out if form == "asis" else unicodedata.normalize(form, out)
 
 
 def split_netstrings(b):
@@ -68,7 +85,7 @@ def gen_dir(seed, tier, focus):
                                             ("subdir", 1.5), ("addfile", 1.5), ("immdir", 0.8 if focus in ("C19", "C20", "C18") else 0.3),
                                             ("setchildren", 1.0)])
         d = ch.randrange(W, ("dir", i), 3)
-        name = ch.pick(W, ("name", i), NAMES)
+        name = draw_name(ch, W, ("n", i))
         if kind == "add":
             ops.append(["add", d, name, ch.pick(W, ("obj", i), OBJ), ch.pick(W, ("ow", i), [True, True, False, "only-files"]),
                         ch.pick(W, ("md", i), [None, None, {}, {"k": "v"}, {"nested": {"a": [1, 2, {"b": None}], "u": "ü"}}, {"no-write": True},
@@ -77,12 +94,12 @@ def gen_dir(seed, tier, focus):
         elif kind == "setchildren":
             ents = []
             for j in range(ch.randint(W, ("nents", i), 1, 4)):
-                ents.append([ch.pick(W, ("sname", i, j), NAMES), ch.pick(W, ("sobj", i, j), OBJ), ch.pick(W, ("smd", i, j), [None, {}, {"j": j}])])
+                ents.append([draw_name(ch, W, ("s", i, j)), ch.pick(W, ("sobj", i, j), OBJ), ch.pick(W, ("smd", i, j), [None, {}, {"j": j}])])
             ops.append(["setchildren", d, ents, ch.pick(W, ("ow", i), [True, False]), ch.pick(W, ("scvia", i), ["set_children", "set_nodes"])])
         elif kind == "delete":
             ops.append(["delete", d, name, ch.chance(W, ("mx", i), 0.7), ch.pick(W, ("must", i), [None, None, "file", "dir"])])
         elif kind == "move":
-            ops.append(["move", d, name, ch.randrange(W, ("d2", i), 3), ch.pick(W, ("n2", i), [None] + NAMES), ch.pick(W, ("ow", i), [True, False, "only-files"])])
+            ops.append(["move", d, name, ch.randrange(W, ("d2", i), 3), (None if ch.chance(W, ("n2-none", i), 0.1) else draw_name(ch, W, ("n2", i))), ch.pick(W, ("ow", i), [True, False, "only-files"])])
         elif kind == "setmd":
             ops.append(["setmd", d, name, ch.pick(W, ("md", i), [{}, {"x": 1}, {"no-write": True}, {"deep": {"l": [1, [2, [3]]]}}])])
         elif kind == "mkdir":
@@ -94,8 +111,12 @@ def gen_dir(seed, tier, focus):
         elif kind == "addfile":
             ops.append(["addfile", d, name, ch.pick(W, ("fsize", i), [0, 10, 55, 56, 200]), ch.randint(W, ("fpat", i), 1, 1 << 30), ch.pick(W, ("ow", i), [True, False])])
         elif kind == "immdir":
-            ops.append(["immdir", [[ch.pick(W, ("iname", i, j), NAMES), ch.pick(W, ("iobj", i, j), ["lit", "chk", "ssk", "ssk-ro", "dir0", "dir0-ro", "unknown-imm", "unknown", "immdir", "lit2"])]
+            ops.append(["immdir", [[draw_name(ch, W, ("i", i, j)), ch.pick(W, ("iobj", i, j), ["lit", "chk", "ssk", "ssk-ro", "dir0", "dir0-ro", "unknown-imm", "unknown", "immdir", "lit2"])]
                                    for j in range(ch.randint(W, ("inents", i), 0, 4))]])
+    if focus in ("C18",) and ch.chance("config", "blacklist", 0.3):
+        # the writing gateway has an access blacklist naming some of the mutable files: it wraps them (ProhibitedNode) whenever
+        # it builds a node for them, also when they are linked into a directory
+        cfg["blacklist"] = ch.pick("config", "blacklisted", [["ssk"], ["mdmf"], ["ssk", "mdmf"]])
     if focus == "C21":
         ops.append(["traverse", ch.randrange(W, "troot", 3), ch.pick(W, "tkind", ["manifest", "stats", "check"])])
         ops.append(["traverse", ch.randrange(W, "troot2", 3), ch.pick(W, "tkind2", ["manifest", "stats", "check"])])
@@ -201,6 +222,14 @@ def exec_dir(case):
         rd = g.add_client(k=cfg["k"], happy=1, n=cfg["n"])
         W = World(g, w, rd, cfg, bad, probe)
         W.ensure_objects()
+        if cfg.get("blacklist"):
+            from allmydata.util import base32 as b32_
+            with open(w.blacklist.blacklist_fn, "wb") as f_:
+                for on_ in cfg["blacklist"]:
+                    si_ = w.create_node_from_uri(W.objs[on_][0]).get_storage_index()
+                    f_.write(b32_.b2a(si_) + b" prohibited for this run\n")
+            w.blacklist.last_mtime = None
+            probe("writer-blacklist-entries", len(cfg["blacklist"]))
 
         def drive(d, what):
             try:
@@ -283,6 +312,9 @@ def exec_dir(case):
                     got[name] = {"rw": node.get_write_uri(), "ro": node.get_readonly_uri(), "md": md, "node": node}
                 want = d["children"]
                 if set(got) != set(want):
+                    if set(norm(n_) for n_ in got) == set(want):
+                        bad("C19", "names-not-normalized", "after %s dir %d lists the names %r; the normalized (NFC) names are %r" % (
+                            why, didx, sorted(set(got) - set(want)), sorted(set(want) - set(got))))
                     bad("C20", "names", "after %s dir %d lists names %r, model has %r" % (why, didx, sorted(got), sorted(want)))
                     return
                 for name, e in want.items():
